@@ -18,6 +18,21 @@ class Unsupported(Exception):
 NO_VALUE = object()
 
 
+class _Fact(dict):
+    """call fact carried inside a function-item value; compares / hashes by definition path only"""
+    def __eq__(self, o):
+        return isinstance(o, dict) and self.get("def") == o.get("def")
+
+    def __ne__(self, o):
+        return not self.__eq__(o)
+
+    def __hash__(self):
+        return hash(self.get("def"))
+
+    def __repr__(self):
+        return "<fn>"
+
+
 def adt(path, vi, fields=()):
     return ("adt", path, vi, list(fields))
 
@@ -34,6 +49,11 @@ class Interp:
         self.max_depth = max_depth
         self.oracle = {}      # {adt path: variant index} assumed for discriminants of opaque values of that enum type
         self.call_oracle = None   # f(callee fact, argv) -> value, or NO_VALUE to interpret normally
+        # iterative form of a structural recursion: `loop { cur = match cur { Wrapper(x) => inner(x), .. => return .. } }`.
+        # When set to an enum path, re-reaching the same discriminant read (depth 0) with an opaque scrutinee of that enum and
+        # no other loop-carried state (every other local live at the loop head unchanged) yields ("recurse", scrutinee):
+        # the function continues exactly as a recursive call on that value would.
+        self.loop_recurse = None
 
     def variant_index(self, path, name):
         if path in STD_VARIANTS:
@@ -59,16 +79,22 @@ class Interp:
             env[k + 1] = a
         bb = start
         steps = 0
+        loop_seen = {}
         while True:
             steps += 1
             if steps > 400:
                 raise Unsupported("loop or too long")
             if steps > 1 and bb in stop:
+                self.last_env = env
                 return ("stop", bb)
             blk = body.blocks[bb]
-            for s in blk["s"]:
+            for j_, s in enumerate(blk["s"]):
                 if "d" not in s:
                     continue
+                if depth == 0 and self.loop_recurse and "discr" in s["r"] and hasattr(body, "local_ty"):
+                    rec = self._loop_recurse(body, env, bb, j_, s, loop_seen)
+                    if rec is not None:
+                        return rec
                 self.assign(body, env, s["d"], self.rvalue(body, env, s["r"]))
             t = blk["t"]
             if "return" in t:
@@ -109,6 +135,30 @@ class Interp:
             else:
                 raise Unsupported("terminator " + ",".join(t))
 
+    def _loop_recurse(self, body, env, bb, j, s, seen):
+        from . import dt as _dt
+        from .facts import ty_adt as _ty_adt
+        if _ty_adt(_dt.place_ty(body, self.F, s["r"]["discr"]) or {}) != self.loop_recurse:
+            return None
+        key = (bb, j)
+        if key not in seen:
+            seen[key] = dict(env)
+            return None
+        try:
+            v = self.place(body, env, s["r"]["discr"])
+        except Unsupported:
+            return None
+        if not is_opaque(v):
+            return None
+        if not hasattr(body, "_live_in"):
+            body._live_in = _dt.live_in(body)
+        root = place_local(s["r"]["discr"])
+        snap = seen[key]
+        carried = [l for l in body._live_in[bb] if l != root and env.get(l, NO_VALUE) != snap.get(l, NO_VALUE)]
+        if carried:
+            raise Unsupported(f"the loop carries state besides the type being peeled ({['_%d' % l for l in carried]})")
+        return ("recurse", v)
+
     def call(self, body, f, argv, depth):
         d = f.get("def", "")
         name = f.get("name", "")
@@ -122,6 +172,18 @@ class Interp:
         if d in ("core::cmp::PartialEq::eq", "core::cmp::PartialEq::ne") and len(argv) == 2 and not contains_opaque(argv[0]) and not contains_opaque(argv[1]):
             r = argv[0] == argv[1]
             return r if d.endswith("eq") else not r
+        RI = "core::ops::range::RangeInclusive"
+        if d == RI + "::<Idx>::new" and len(argv) == 2:
+            return adt(RI, 0, [argv[0], argv[1], False])
+        if d in (RI + "::<Idx>::start", RI + "::<Idx>::end") and argv and is_adt(argv[0]) and argv[0][1] == RI:
+            return argv[0][3][0 if name == "start" else 1]
+        if name == "contains" and len(argv) == 2 and is_adt(argv[0]) and argv[0][1] in (RI, "core::ops::range::Range") and d.startswith("core::ops::range::"):
+            lo_, hi_ = argv[0][3][0], argv[0][3][1]
+            if all(isinstance(x_, int) and not isinstance(x_, bool) for x_ in (lo_, hi_, argv[1])):
+                return lo_ <= argv[1] <= hi_ if argv[0][1] == RI else lo_ <= argv[1] < hi_
+        comb = self._combinator(body, f, argv, depth)
+        if comb is not NO_VALUE:
+            return comb
         rd = (f.get("resolved") or {}).get("def") or ""
         if (d == "core::ops::try_trait::Try::branch" or "Try>::branch" in rd) and argv and is_adt(argv[0]) and argv[0][1] in ("core::option::Option", "core::result::Result"):
             v0 = argv[0]
@@ -150,7 +212,88 @@ class Interp:
                     return self.run(cb, argv, depth + 1)
                 except Unsupported:
                     pass
+        # tuple-struct / enum-variant constructors used as functions (`.map(Wrapper)`)
+        try:
+            a_ = self.F.adt(d)
+            if a_ and a_.get("kind") == "struct" and len(a_["variants"][0]["fields"]) == len(argv):
+                return adt(d, 0, argv)
+            if "::" in d:
+                par, vn = d.rsplit("::", 1)
+                a_ = self.F.adt(par)
+                if a_ and a_.get("kind") == "enum":
+                    for vi_, v_ in enumerate(a_["variants"]):
+                        if v_["name"] == vn and len(v_["fields"]) == len(argv):
+                            return adt(par, vi_, argv)
+        except Exception:
+            pass
         return ("call", (f.get("resolved") or {}).get("def") or d, argv)
+
+    def apply(self, body, fv, args, depth):
+        """call a function value (closure / function item) with concrete argument values"""
+        if isinstance(fv, tuple) and fv and fv[0] == "closure":
+            cb = self.crate.body(fv[1])
+            if cb is None:
+                raise Unsupported("closure body unavailable")
+            return self.run(cb, [fv] + list(args), depth + 1)
+        if isinstance(fv, tuple) and fv and fv[0] == "fn":
+            fact = fv[2] if len(fv) > 2 else {"def": fv[1], "name": fv[1].split("::")[-1]}
+            d = fact.get("def", "")
+            for path, names in STD_VARIANTS.items():
+                for vi, vn in enumerate(names):
+                    if d == f"{path}::{vn}":
+                        return adt(path, vi, list(args))
+            return self.call(body, dict(fact), list(args), depth)
+        raise Unsupported("call of an unknown function value")
+
+    def _combinator(self, body, f, argv, depth):
+        """std Option / Result / bool combinators on concrete receivers (semantics table shared with vf.lower)"""
+        from . import lower as _lower
+        co = _lower.combinator_of({"call": f})
+        if co is None or not argv:
+            return NO_VALUE
+        kind, row = co
+        recv = argv[0]
+        if kind == "bool":
+            if not isinstance(recv, bool):
+                return NO_VALUE
+            vi, payload = int(recv), None
+        else:
+            if not (is_adt(recv) and recv[1] == kind):
+                return NO_VALUE
+            vi = recv[2]
+            payload = recv[3][0] if recv[3] else None
+
+        def ev(e):
+            k = e[0]
+            if k == "payload":
+                return payload
+            if k == "same":
+                return recv
+            if k == "arg":
+                return argv[e[1]]
+            if k == "bool":
+                return e[1]
+            if k == "unit":
+                return adt(e[1], e[2], [])
+            if k == "wrap":
+                return adt(e[1], e[2], [ev(e[3])])
+            if k == "callf":
+                return self.apply(body, argv[e[1]], [ev(x) for x in e[2]], depth)
+            if k == "zip":
+                o_ = argv[e[1]]
+                if not (is_adt(o_) and o_[1] == "core::option::Option"):
+                    raise Unsupported("zip with a symbolic option")
+                return adt("core::option::Option", 1, [("tuple", [payload, o_[3][0]])]) if o_[2] == 1 else adt("core::option::Option", 0, [])
+            if k == "ifp":
+                c_ = self.apply(body, argv[e[1]], [payload], depth)
+                if not isinstance(c_, bool):
+                    raise Unsupported("filter predicate on a symbolic value")
+                return ev(e[2]) if c_ else ev(e[3])
+            raise Unsupported("combinator expression")
+        try:
+            return ev(row[vi])
+        except IndexError:
+            return NO_VALUE
 
     def assign(self, body, env, place, val):
         if isinstance(place, int):
@@ -215,7 +358,7 @@ class Interp:
             if "char" in c:
                 return ord(c["char"]) if isinstance(c["char"], str) and len(c["char"]) == 1 else c["char"]
             if "fn" in c:
-                return ("fn", c["fn"]["def"])
+                return ("fn", c["fn"]["def"], _Fact(c["fn"]))
             if "promoted" in c:
                 return self.promoted(body, c["promoted"])
             if c.get("zst"):
@@ -223,13 +366,30 @@ class Interp:
             for k in ("static", "item"):
                 if k in c:
                     cst = self.crate.consts.get(c[k]) if hasattr(self.crate, "consts") else None
-                    if cst and "mem" in cst:
-                        return ("mem", bytes.fromhex(cst["mem"]), c[k])
                     if cst and "int" in cst:
                         return cst["int"]
+                    if cst and (cst.get("ty") or {}).get("adt"):
+                        # a structured constant (`const R: RangeInclusive<i64> = -L..=L`): evaluate its initialiser
+                        v_ = self._const_body_value(c[k])
+                        if v_ is not NO_VALUE:
+                            return v_
+                    if cst and "mem" in cst:
+                        return ("mem", bytes.fromhex(cst["mem"]), c[k])
                     return ("item", c[k])
             return ("sym", "const")
         return self.place(body, env, op_place(op))
+
+    def _const_body_value(self, path):
+        cache = self.__dict__.setdefault("_const_cache", {})
+        if path not in cache:
+            cache[path] = NO_VALUE
+            cb = [x for x in getattr(self.crate, "bodies", []) if x.kind in ("const", "static") and x.path == path]
+            if len(cb) == 1:
+                try:
+                    cache[path] = self.run(cb[0], [], depth=1)
+                except Unsupported:
+                    pass
+        return cache[path]
 
     def promoted(self, body, k):
         p = body.d["promoted"][k]
@@ -304,6 +464,8 @@ class Interp:
             a = self.operand(body, env, r["a"])
             if r["un"] == "Not" and isinstance(a, bool):
                 return not a
+            if r["un"] == "Neg" and isinstance(a, (int, float)) and not isinstance(a, bool):
+                return -a
             raise Unsupported("unop")
         raise Unsupported("rvalue " + ",".join(r))
 
